@@ -156,6 +156,16 @@ def run_case(key):
             out[(M, phi)] = None
     res["states"] = 1
     res["trans"] = len(MPHI)
+    # the solver is a function of its arguments: the same call again, after the other
+    # (M*, phi) calls, must return bit-identical arrays (no scratch state between calls)
+    if out[MPHI[0]] is not None:
+        cl["repeat_call_identical"] = cl.get("repeat_call_identical", 0) + 1
+        try:
+            again = R.call(rg, ph, fb, A, f, D, L, p, nn, lam, *MPHI[0])
+            if not (np.array_equal(again[0], out[MPHI[0]][0], equal_nan=True) and np.array_equal(again[1], out[MPHI[0]][1], equal_nan=True)):
+                V("repeat_call_identical", {"max_dA": float(np.nanmax(np.abs(again[0] - out[MPHI[0]][0]))), "max_df": float(np.nanmax(np.abs(again[1] - out[MPHI[0]][1])))}, grain="(all)")
+        except Exception as e:
+            V("repeat_call_identical", {"exception": type(e).__name__}, grain="(call)")
 
     # reference energies (scale only / sign clause)
     if smax > 0:
